@@ -1,3 +1,4 @@
+import NA.Model.GateText
 /-
 Session model shared by C06 ("approve never changes a wrong, unmanaged or passive device")
 and C11 ("compare never changes the device").  Core Lean only; executable.
@@ -7,12 +8,17 @@ its *skeleton* can be compared with the call skeleton regenerated from the Go so
 It talks to an arbitrary device `Dev : history → request → reply`; a reply may be a fault
 (time-out, closed connection, HTTP error, malformed answer) at any point.
 
+Conditions on text are DATA (`Pred` over string expressions `TExp`: strings.HasSuffix,
+Contains, TrimSuffix, TrimSpace, ToLower, `!=`, `len(x) == 0`, the `checkbanner` regexp) with an
+evaluator and a printer; the printed form is the Go source text of the guard and is compared
+with the regenerated skeleton, so the meaning of a guard is tied to its source.
+
 What the constructors can touch is fixed by their types, so that frame properties are
 syntactic:
-* only `send` and `forPlan` extend the trace (what is put on the wire);
+* only `send`, `sendCur` and `forPlan` extend the trace (what is put on the wire);
 * only `record` changes `errU` (Go: `s.errUnmanaged`);
 * only `collect` extends `banner` (Go: `bannerLines += out`), and only with device output;
-* only `setName` changes `devName`; only `crash` can panic.
+* only `setName` changes `devName`; only `crash` can panic; only `loop` can be left unfinished.
 -/
 namespace NA.Gate
 
@@ -40,7 +46,8 @@ inductive Reply
   | text (s : String)
   | ha (enabled mode state : String)
   | conf (hostname : String) (vsys : List (String × String))   -- (vsys name, display-name)
-  | ids (l : List String)
+  /-- one page of a listing: the ids of the results and the cursor of the next page ("" = last) -/
+  | page (ids : List String) (cursor : String)
   | fault (why : String)
   deriving DecidableEq, Repr, Inhabited
 
@@ -53,14 +60,12 @@ structure Cfg where
   name : String := "router"
   /-- `name_list` of the info file (HTTP backends) -/
   names : List String := ["router"]
-  /-- `checkbanner`: `none` = not configured; `some m` = regexp match on the collected login output -/
-  banner : Option (List String → Bool) := none
+  /-- `checkbanner`: `none` = not configured; `some r` = the compiled regexp -/
+  banner : Option Rx := none
   /-- source text of the regexp (argument of `grep` on Linux) -/
   bannerSrc : String := ""
   /-- PAN-OS: names of the vsys in the Netspoc configuration -/
   targetVsys : List String := []
-  /-- PAN-OS: `strings.Contains(strings.ToLower(displayName), "netspoc")` -/
-  isMarked : String → Bool := fun _ => false
   user : String := "admin"
   /-- `-C` / `compare` -/
   isCompare : Bool := false
@@ -68,12 +73,16 @@ structure Cfg where
   parses : String → Bool := fun _ => true
   /-- error of GetChanges that depends on the device configuration (ASA/IOS checkInterfaces …) -/
   changesErr : Reply → Option String := fun _ => none
+  /-- how many iterations of an unbounded loop (NSX paging, PAN-OS job polling) are observed; the
+  Go loops have no bound, every theorem holds for every value -/
+  fuel : Nat := 8
 
 inductive Status
   | running
   | aborted (msg : String)    -- errlog.Abort
   | failed (msg : String)     -- an error value travelling up to ApproveOrCompare
   | panicked (msg : String)   -- Go run-time panic (not a bailout)
+  | unfinished                -- an unbounded loop was still going when the observation ended
   deriving DecidableEq, Repr, Inhabited
 
 def Status.isRunning : Status → Bool
@@ -88,6 +97,7 @@ def Status.isFailed : Status → Bool
 @[simp] theorem Status.isRunning_aborted (m : String) : (Status.aborted m).isRunning = false := rfl
 @[simp] theorem Status.isRunning_failed (m : String) : (Status.failed m).isRunning = false := rfl
 @[simp] theorem Status.isRunning_panicked (m : String) : (Status.panicked m).isRunning = false := rfl
+@[simp] theorem Status.isRunning_unfinished : Status.unfinished.isRunning = false := rfl
 
 theorem Status.isRunning_iff {s : Status} : s.isRunning = true ↔ s = .running := by
   cases s <;> simp [Status.isRunning]
@@ -95,6 +105,10 @@ theorem Status.isRunning_iff {s : Status} : s.isRunning = true ↔ s = .running 
 structure St where
   trace : List Out := []          -- oldest first
   reply : Reply := .fault "no reply yet"
+  /-- Go variables `out`, `lines` (text), the pieces of `bannerLines`, the loop variable -/
+  out : List Char := []
+  lines : List Char := []
+  cursor : String := ""
   banner : List String := []
   errU : List String := []
   devName : String := ""
@@ -122,19 +136,140 @@ caller only sees an unusable reply (PAN-OS checkHA returns false). -/
 inductive FaultMode | abort | fail | ignore
   deriving DecidableEq, Repr
 
+/-! ## text expressions and predicates (data, with evaluator and Go printer) -/
+
+inductive Var | out | lines
+  deriving DecidableEq, Repr
+
+/-- string expressions of the guards -/
+inductive TExp
+  | v (x : Var)
+  | name          -- parameter `name` of checkDeviceName: the expected device name
+  | bannerLines   -- everything collected during login, concatenated
+  | re            -- `cfg.CheckBanner.String()`
+  | reply         -- the text just received (`<reply>` in the printed form)
+  | lit (s : String)
+  | trimSuffix (e : TExp) (suf : String)
+  | trimSpace (e : TExp)
+  | toLower (e : TExp)
+  | cat (a b : TExp)
+
+/-- what guards can see -/
+structure PEnv where
+  cfg : Cfg
+  reply : Reply
+  devName : String
+  out : List Char
+  lines : List Char
+  cursor : String
+  banner : List String
+
+def textOf : Reply → Option String
+  | .text s => some s
+  | _ => none
+
+def TExp.eval (pe : PEnv) : TExp → List Char
+  | .v .out => pe.out
+  | .v .lines => pe.lines
+  | .name => pe.cfg.name.toList
+  | .bannerLines => (String.join pe.banner).toList
+  | .re => pe.cfg.bannerSrc.toList
+  | .reply => match pe.reply with | .text s => s.toList | _ => []
+  | .lit s => s.toList
+  | .trimSuffix e suf => trimSuffixL (e.eval pe) suf.toList
+  | .trimSpace e => trimSpaceL (e.eval pe)
+  | .toLower e => lowerL (e.eval pe)
+  | .cat a b => a.eval pe ++ b.eval pe
+
+def goQuoteC (c : Char) : String :=
+  if c == '\n' then "\\n" else if c == '\t' then "\\t" else if c == '\r' then "\\r"
+  else if c == '"' then "\\\"" else if c == '\\' then "\\\\" else c.toString
+
+/-- a Go interpreted string literal -/
+def goQuote (s : String) : String := "\"" ++ String.join (s.toList.map goQuoteC) ++ "\""
+
+def Var.show : Var → String
+  | .out => "out" | .lines => "lines"
+
+def TExp.show : TExp → String
+  | .v x => x.show
+  | .name => "name"
+  | .bannerLines => "bannerLines"
+  | .re => "re"
+  | .reply => "<reply>"
+  | .lit s => goQuote s
+  | .trimSuffix e suf => "strings.TrimSuffix(" ++ e.show ++ ", " ++ goQuote suf ++ ")"
+  | .trimSpace e => "strings.TrimSpace(" ++ e.show ++ ")"
+  | .toLower e => "strings.ToLower(" ++ e.show ++ ")"
+  | .cat a b => a.show ++ " + " ++ b.show
+
+inductive Pred
+  | hasSuffix (e : TExp) (s : String)
+  | contains (e : TExp) (s : String)
+  | ne (a b : TExp)
+  | isEmpty (e : TExp)                 -- len(e) == 0
+  | not (p : Pred)
+  | and (p q : Pred)
+  | bannerSet                          -- rx != nil            (rx := cfg.CheckBanner)
+  | bannerUnset                        -- cfg.CheckBanner == nil
+  | bannerNoMatch (e : TExp)           -- rx.FindStringIndex(e) == nil
+  | cursorSet                          -- cursor != ""
+  /-- a named Boolean (result of a local closure); printed as its name -/
+  | val (label : String) (p : Pred)
+  /-- a condition on decoded (non-text) data; printed as its label -/
+  | opaque (label : String) (f : Cfg → Reply → String → Bool)
+
+def Pred.eval (pe : PEnv) : Pred → Bool
+  | .hasSuffix e s => s.toList.isSuffixOf (e.eval pe)
+  | .contains e s => infixL (e.eval pe) s.toList
+  | .ne a b => a.eval pe != b.eval pe
+  | .isEmpty e => (e.eval pe).isEmpty
+  | .not p => !p.eval pe
+  | .and p q => p.eval pe && q.eval pe
+  | .bannerSet => pe.cfg.banner.isSome
+  | .bannerUnset => pe.cfg.banner.isNone
+  | .bannerNoMatch e => match pe.cfg.banner with
+    | some r => !r.search (e.eval pe)
+    | none => false
+  | .cursorSet => pe.cursor != ""
+  | .val _ p => p.eval pe
+  | .opaque _ f => f pe.cfg pe.reply pe.devName
+
+def Pred.show : Pred → String
+  | .hasSuffix e s => "strings.HasSuffix(" ++ e.show ++ ", " ++ goQuote s ++ ")"
+  | .contains e s => "strings.Contains(" ++ e.show ++ ", " ++ goQuote s ++ ")"
+  | .ne a b => a.show ++ " != " ++ b.show
+  | .isEmpty e => "len(" ++ e.show ++ ") == 0"
+  | .not p => "!" ++ p.show
+  | .and p q => p.show ++ " && " ++ q.show
+  | .bannerSet => "rx != nil"
+  | .bannerUnset => "cfg.CheckBanner == nil"
+  | .bannerNoMatch e => "rx.FindStringIndex(" ++ e.show ++ ") == nil"
+  | .cursorSet => "cursor != \"\""
+  | .val label _ => label
+  | .opaque label _ => label
+
 inductive Prog
   | nop
   | seq (p q : Prog)
   /-- `prim`/`arg` name the Go primitive and its argument text (skeleton only) -/
   | send (prim arg : String) (o : Out) (fm : FaultMode)
+  /-- request whose argument is the loop variable: `litArg pre cursor` -/
+  | sendCur (prim arg pre : String) (fm : FaultMode)
+  /-- `x := e` / `x = e`; `silent`: parameter passing, not a statement of the function -/
+  | assign (x : Var) (decl silent : Bool) (e : TExp)
   | collect (label : String)
   | setName (n : String)
-  | check (label ikind itext : String) (c : Cfg → Reply → String → Option Fail)
-  | record (label atext : String) (m : RecMode) (c : Cfg → Reply → List String → List String)
+  /-- loop variable := function of the last reply (not shown in the skeleton) -/
+  | setCur (f : Reply → String)
+  /-- `if p { Abort / return err }` -/
+  | check (p : Pred) (ikind itext : String) (fl : Fail)
+  /-- `if p { s.errUnmanaged = … }` -/
+  | record (p : Pred) (atext : String) (m : RecMode) (msgs : Cfg → Reply → List String)
   | crash (label : String) (c : Cfg → Bool)
-  | ite (label : String) (c : Cfg → Reply → Bool) (t e : Prog)
-  /-- `if c { return }` followed by the rest of the function -/
-  | early (label itext : String) (c : Cfg → Reply → Bool) (rest : Prog)
+  | ite (p : Pred) (t e : Prog)
+  /-- `if p { return }` followed by the rest of the function -/
+  | early (p : Pred) (itext : String) (rest : Prog)
   /-- `if !s.HasChanges() { return nil }` followed by the rest -/
   | ifChanges (rest : Prog)
   | call (fn : String) (body : Prog)
@@ -148,6 +283,10 @@ inductive Prog
   | gate (consult : Bool)
   | warnU
   | forPlan (fm : FaultMode) (body : Prog)
+  /-- `for { body; if !again { break } }` — unbounded in Go; observed for `cfg.fuel` rounds -/
+  | loop (label : String) (body : Prog) (again : Pred)
+  /-- `for _, r := range results { if keep r.Id { cursor := r.Id; body } }` over the ids of the page just received -/
+  | forIds (label : String) (keep : String → Bool) (body : Prog)
 
 infixr:60 " ;; " => Prog.seq
 
@@ -167,14 +306,27 @@ def sendStep (env : Env) (o : Out) (fm : FaultMode) (st : St) : St :=
     | _ => { st' with connected := st.connected || o == .connect }
   else st
 
-def textOf : Reply → Option String
-  | .text s => some s
-  | _ => none
+def penv (env : Env) (st : St) : PEnv :=
+  ⟨env.cfg, st.reply, st.devName, st.out, st.lines, st.cursor, st.banner⟩
+
+/-- bounded observation of an unbounded loop -/
+def iter (f : St → St) (again : St → Bool) : Nat → St → St
+  | 0, st => if st.status.isRunning then { st with status := .unfinished } else st
+  | n + 1, st =>
+    let s := f st
+    if s.status.isRunning && again s then iter f again n s else s
 
 def exec (env : Env) : Prog → St → St
   | .nop, st => st
   | .seq p q, st => exec env q (exec env p st)
   | .send _ _ o fm, st => sendStep env o fm st
+  | .sendCur _ _ pre fm, st => sendStep env (.litArg pre st.cursor) fm st
+  | .assign x _ _ e, st =>
+    if st.status.isRunning then
+      match x with
+      | .out => { st with out := e.eval (penv env st) }
+      | .lines => { st with lines := e.eval (penv env st) }
+    else st
   | .collect _, st =>
     if st.status.isRunning then
       match st.reply with
@@ -182,27 +334,27 @@ def exec (env : Env) : Prog → St → St
       | _ => st
     else st
   | .setName n, st => if st.status.isRunning then { st with devName := n } else st
-  | .check _ _ _ c, st =>
-    if st.status.isRunning then
-      match c env.cfg st.reply st.devName with
-      | none => st
-      | some (.abort m) => { st with status := .aborted m }
-      | some (.fail m) => { st with status := .failed m }
+  | .setCur f, st => if st.status.isRunning then { st with cursor := f st.reply } else st
+  | .check p _ _ fl, st =>
+    if st.status.isRunning && p.eval (penv env st) then
+      match fl with
+      | .abort m => { st with status := .aborted m }
+      | .fail m => { st with status := .failed m }
     else st
-  | .record _ _ m c, st =>
-    if st.status.isRunning then
-      match c env.cfg st.reply st.banner with
-      | [] => st
-      | l => { st with errU := match m with | .set => l | .append => st.errU ++ l }
+  | .record p _ m msgs, st =>
+    if st.status.isRunning && p.eval (penv env st) then
+      match m with
+      | .set => { st with errU := msgs env.cfg st.reply }
+      | .append => { st with errU := st.errU ++ msgs env.cfg st.reply }
     else st
   | .crash label c, st =>
     if st.status.isRunning && c env.cfg then { st with status := .panicked label } else st
-  | .ite _ c t e, st =>
+  | .ite p t e, st =>
     if st.status.isRunning then
-      (if c env.cfg st.reply then exec env t st else exec env e st)
+      (if p.eval (penv env st) then exec env t st else exec env e st)
     else st
-  | .early _ _ c rest, st =>
-    if st.status.isRunning then (if c env.cfg st.reply then st else exec env rest st) else st
+  | .early p _ rest, st =>
+    if st.status.isRunning then (if p.eval (penv env st) then st else exec env rest st) else st
   | .ifChanges rest, st =>
     if st.status.isRunning then (if env.plan.isEmpty then st else exec env rest st) else st
   | .call _ b, st => exec env b st
@@ -224,6 +376,16 @@ def exec (env : Env) : Prog → St → St
     else st
   | .warnU, st => if st.status.isRunning then { st with warnings := st.warnings ++ st.errU } else st
   | .forPlan fm b, st => env.plan.foldl (fun s c => exec env b (sendStep env (.plan c) fm s)) st
+  | .loop _ b again, st =>
+    if st.status.isRunning then
+      iter (exec env b) (fun s => again.eval (penv env s)) env.cfg.fuel st
+    else st
+  | .forIds _ keep b, st =>
+    match st.reply with
+    | .page ids _ =>
+      (ids.filter keep).foldl
+        (fun s id => if s.status.isRunning then exec env b { s with cursor := id } else s) st
+    | _ => st
 
 def run (env : Env) (p : Prog) : St := exec env p {}
 
@@ -237,12 +399,14 @@ def closeStep (o : Option Out) (st : St) : St :=
       { st with trace := st.trace ++ [x] }
     else st
 
-/-- Exit status of `drc`: 0, 1 after `ERROR>>>`, 2 after a Go panic. -/
+/-- Exit status of `drc`: 0, 1 after `ERROR>>>`, 2 after a Go panic; 3 stands for "the program
+was still in an unbounded loop when the observation ended". -/
 def St.exit (st : St) : Nat :=
   match st.status with
   | .running => 0
   | .aborted _ | .failed _ => 1
   | .panicked _ => 2
+  | .unfinished => 3
 
 /-- The `ERROR>>>` line. -/
 def St.diagnostic (st : St) : Option String :=
@@ -259,15 +423,19 @@ def skel (d : Nat) : Prog → List Item
   | .nop => []
   | .seq p q => skel d p ++ skel d q
   | .send prim arg _ _ => [(d, "send", if arg == "" then prim else prim ++ " " ++ arg)]
+  | .sendCur prim arg _ _ => [(d, "send", if arg == "" then prim else prim ++ " " ++ arg)]
+  | .assign x decl silent e =>
+    if silent then [] else [(d, "assign", x.show ++ (if decl then " := " else " = ") ++ e.show)]
   | .collect label => [(d, "assign", label)]
   | .setName _ => [(d, "assign", "devName = name")]
-  | .check label ik it _ => [(d, "if", label), (d + 1, ik, it)]
-  | .record label atxt _ _ => [(d, "if", label), (d + 1, "assign", atxt)]
+  | .setCur _ => []
+  | .check p ik it _ => [(d, "if", p.show), (d + 1, ik, it)]
+  | .record p atxt _ _ => [(d, "if", p.show), (d + 1, "assign", atxt)]
   | .crash _ _ => []
-  | .ite label _ t e =>
-    (d, "if", label) :: skel (d + 1) t ++
+  | .ite p t e =>
+    (d, "if", p.show) :: skel (d + 1) t ++
       (match skel (d + 1) e with | [] => [] | l => (d, "else", "") :: l)
-  | .early label it _ rest => (d, "if", label) :: (d + 1, "ret", it) :: skel d rest
+  | .early p it rest => (d, "if", p.show) :: (d + 1, "ret", it) :: skel d rest
   | .ifChanges rest =>
     (d, "call", "HasChanges") :: (d, "if", "!s.HasChanges()") :: (d + 1, "ret", "nil") :: skel d rest
   | .call fn _ => [(d, "call", fn)]
@@ -279,24 +447,7 @@ def skel (d : Nat) : Prog → List Item
   | .warnU => [(d, "call", "GetErrUnmanaged"), (d, "for", "range s.GetErrUnmanaged()"),
                (d + 1, "call", "Warning")]
   | .forPlan _ _ => []
-
-/-! ## Text helpers (kernel-reducible: via `String.toList`) -/
-
-def hasSuffix (s suf : String) : Bool := suf.toList.isSuffixOf s.toList
-def hasPrefix (s pre : String) : Bool := pre.toList.isPrefixOf s.toList
-
-def infixL : List Char → List Char → Bool
-  | [], p => p.isEmpty
-  | c :: cs, p => p.isPrefixOf (c :: cs) || infixL cs p
-
-def contains (s sub : String) : Bool := infixL s.toList sub.toList
-
-def isSpaceC (c : Char) : Bool := c == ' ' || c == '\n' || c == '\t' || c == '\r'
-
-def trimSuffixL (l suf : List Char) : List Char :=
-  if suf.isSuffixOf l then l.take (l.length - suf.length) else l
-
-def trimSpaceL (l : List Char) : List Char :=
-  ((l.dropWhile isSpaceC).reverse.dropWhile isSpaceC).reverse
+  | .loop label b _ => (d, "for", label) :: skel (d + 1) b
+  | .forIds label _ b => (d, "for", label) :: skel (d + 1) b
 
 end NA.Gate
